@@ -643,7 +643,7 @@ func c08Pools(c *Ctx, p *Prog, m *Model) {
 	pa := p.Global(p.Slog, "poolAttrs")
 	n := 0
 	for _, fn := range p.RepoFuncs() {
-		if strings.HasPrefix(nm(fn), "init") {
+		if p.startupOnly(fn) {
 			continue
 		}
 		var get, put ssa.CallInstruction
